@@ -48,12 +48,19 @@ def idx(i: int, dup: bool) -> int:
     return (i - 1) // 2 if dup else i - 1
 
 
+NULLS = [False]      # replay mode: every matched value is null (a value like any other)
+
+
+def val(j: int) -> Any:
+    return None if NULLS[0] else 10 + j
+
+
 def forward(view: str, ids: List[int], dup: bool) -> List[Any]:
     """What a view has to list for these match ids."""
     out: List[Any] = []
     for i in ids:
         j = idx(i, dup)
-        out.append(10 + j if view == "values" else f"$[{j}]" if view == "locations" else (f"$[{j}]", 10 + j) if view == "items" else f"/{j}")
+        out.append(val(j) if view == "values" else f"$[{j}]" if view == "locations" else (f"$[{j}]", val(j)) if view == "items" else f"/{j}")
     return out
 
 
@@ -62,7 +69,7 @@ def run_prefix(n: int, hist: List[Dict[str, Any]], k: int, salt: int, dup: bool 
     import jsonpath
 
     text = "$[" + ",".join(str(idx(i, True)) for i in range(1, n + 1)) + "]" if dup and n else "$[*]"
-    qs: Dict[int, Any] = {1: jsonpath.query(text, [10 + i for i in range(n)])}
+    qs: Dict[int, Any] = {1: jsonpath.query(text, [val(i) for i in range(n)])}
     bad: List[str] = []
     for j, h in enumerate(hist[:k]):
         last = j == k - 1
@@ -91,15 +98,15 @@ def run_prefix(n: int, hist: List[Dict[str, Any]], k: int, salt: int, dup: bool 
             else:
                 if h["op"] == "view":
                     got = list(getattr(q, name)())
-                    if dup:
+                    if dup or NULLS[0]:
                         got = [str(x) if name == "pointers" else tuple(x) if name == "items" else x for x in got]
-                        obs = {"k": "list", "ids": exp["ids"] if got == forward(name, exp["ids"], True) else ["?", str(got)[:80]]}
+                        obs = {"k": "list", "ids": exp["ids"] if got == forward(name, exp["ids"], dup) else ["?", str(got)[:80]]}
                     else:
                         obs = {"k": "list", "ids": ids_of(name, got)}
-                elif dup:
+                elif dup or NULLS[0]:
                     m = getattr(q, name)()
                     obs = ({"k": "nothing", "ids": []} if m is None else
-                           {"k": "match", "ids": exp["ids"] if exp["ids"] and (m.obj, m.path) == (10 + idx(exp["ids"][0], True), f"$[{idx(exp['ids'][0], True)}]") else ["?", m.path]})
+                           {"k": "match", "ids": exp["ids"] if exp["ids"] and (m.obj, m.path) == (val(idx(exp["ids"][0], dup)), f"$[{idx(exp['ids'][0], dup)}]") else ["?", m.path]})
                 else:
                     m = getattr(q, name)()
                     obs = {"k": "nothing", "ids": []} if m is None else {"k": "match", "ids": [m.obj - 9]}
@@ -127,8 +134,10 @@ def replay(rec: Dict[str, Any]) -> List[Tuple[str, Dict[str, Any], str]]:
     # behaviour when the chain bound is larger; here the final state is compared after the full
     # chain and return values after each prefix.
     bad: List[str] = []
-    for dup, statement in ((False, False), (True, False), (False, True)):      # distinct nodes; every node visited twice; statement style
-        tagd = "revisited-nodes:" if dup else "statement-style:" if statement else ""
+    for dup, statement, nulls in ((False, False, False), (True, False, False), (False, True, False), (False, False, True)):
+        # distinct nodes; every node visited twice; statement style; every value null
+        NULLS[0] = nulls
+        tagd = "revisited-nodes:" if dup else "statement-style:" if statement else "null-values:" if nulls else ""
         for k in range(1, len(hist) + 1):
             b, qs = run_prefix(n, hist, k, salt, dup, statement)
             if b:
@@ -142,12 +151,13 @@ def replay(rec: Dict[str, Any]) -> List[Tuple[str, Dict[str, Any], str]]:
                 if q not in qs:
                     bad.append(f"final:{tagd}query-{q}-missing")
                     continue
-                got = [m.obj for m in qs[q]] if dup else [m.obj - 9 for m in qs[q]]
-                if got != (forward("values", rec["rem"][q - 1], True) if dup else rec["rem"][q - 1]):
+                got = [m.path for m in qs[q]] if nulls else [m.obj for m in qs[q]] if dup else [m.obj - 9 for m in qs[q]]
+                if got != (forward("locations", rec["rem"][q - 1], False) if nulls else forward("values", rec["rem"][q - 1], True) if dup else rec["rem"][q - 1]):
                     bad.append(f"final:{tagd}remaining-differs")
                     break
         if bad:
             break
+    NULLS[0] = False
     if not bad:
         return []
     ops = ">".join(h["op"] + ("-" if h["c"] < 0 else "") for h in hist)
